@@ -104,6 +104,9 @@ Section C.
     - apply IH. assumption.
   Qed.
 
+  Lemma proposal_eq_dec (a b : proposal) : {a = b} + {a <> b}.
+  Proof. repeat decide equality; apply N.eq_dec. Defined.
+
   (* ---------- new_props ---------- *)
   Lemma restamp_wid qb p : p_wid (restamp qb p) = p_wid p.
   Proof. reflexivity. Qed.
@@ -291,6 +294,31 @@ Section C.
           destruct Hi as [Hi|Hi]; [|lia].
           rewrite nth_error_firstn_lt by lia. exact H0.
         + exact H0.
+    Qed.
+
+    (* Liveness of surfacing (C09): with a quorum block, a unit of work some valid observation proposes,
+       which is neither in the carried history nor agreed in this round, is in the new round stamped
+       with the quorum block - or the round is full and everything in it sorts at or before it *)
+    Theorem surfaced_live p : snd lq = true -> In p allnew ->
+      ~ In (p_wid p) (all_wids prev) -> ~ In (p_wid p) (map r_wid agreed) ->
+      exists q, p_wid q = p_wid p /\ t_num (p_trig q) = bk_num (fst lq) /\ t_hash (p_trig q) = bk_hash (fst lq) /\
+        (In q (hd [] res) \/
+         (length (hd [] res) = perRound /\ forall y, In y (hd [] res) -> shuf (p_wid y) <= shuf (p_wid q))).
+    Proof.
+      intros Hq Hin Hh Ha. destruct cset_cases as [[E _]|[_ ->]]; [congruence|]. simpl.
+      assert (H1 : ~ In (p_wid p) (all_wids surf1)).
+      { intro H. apply surf1_sub in H. unfold surf0 in H. rewrite carry_wids in H.
+        apply in_map_iff in H as [p1 [Hw Hp1]]. apply filter_In in Hp1 as [Hp1 _]. apply Hh.
+        unfold all_wids. rewrite <- Hw. apply in_map. exact Hp1. }
+      destruct (new_props_complete (fst lq) agreed surf1 allnew [] p Hin H1 Ha) as [[]|H].
+      apply in_map_iff in H as [q [Hw Hi]]. exists q. split; [exact Hw|].
+      assert (Hs := Hi). apply new_props_spec in Hs as [p0 [_ [-> _]]]. split; [reflexivity|]. split; [reflexivity|].
+      set (key := fun p1 : proposal => shuf (p_wid p1)).
+      assert (Hi' : In (restamp (fst lq) p0) (sort_by key (new_props (fst lq) agreed surf1 [] allnew)))
+        by (apply sort_by_In; exact Hi).
+      destruct (in_dec proposal_eq_dec (restamp (fst lq) p0) latest) as [Hl|Hl]; [left; exact Hl|]. right.
+      destruct (firstn_sorted_cut key perRound _ _ (sort_by_sorted key _) Hi' Hl) as [Hlen Hy].
+      split; [|exact Hy]. unfold latest. rewrite firstn_length. fold key. lia.
     Qed.
   End Set_.
 End C.
